@@ -377,12 +377,20 @@ def section9():
                "quick tier, and undone. `how` says which part of the check fired.\n")
     out += ["| id | property | the change | caught by quick | how | caught by other checks |", "|---|---|---|---|---|---|"]
     for j in rows:
-        out.append(f"| {j.get('id','')} | {j.get('property','')} | {j.get('summary','')} | {j.get('caught','')} | {j.get('how','')} | {', '.join(j.get('also_caught_by', []))} |")
+        summ = j.get('summary', '').replace('|', '/')
+        if len(summ) > 260:
+            summ = summ[:257].rsplit(' ', 1)[0] + ' …'
+        out.append(f"| {j.get('id','')} | {j.get('property','')} | {summ} | {j.get('caught','')} | {j.get('how','')} | {', '.join(j.get('also_caught_by', []))} |")
+    noted = [j for j in rows if j.get("note")]
+    if noted:
+        out.append("\nChanges the checks missed when they were first tried, and what was done about it (all are caught now; the table above is the state after strengthening):\n")
+        for j in noted:
+            out.append(f"* {j.get('id')}: {j.get('note','')}")
     missed = [j for j in rows if str(j.get("caught", "")).lower().startswith("no")]
     if missed:
-        out.append("\nNot caught (and what was done about it):\n")
+        out.append("\nNot caught:\n")
         for j in missed:
-            out.append(f"* {j.get('id')}: {j.get('note','')}")
+            out.append(f"* {j.get('id')}: {j.get('summary','')}")
     out.append("")
     return "\n".join(out)
 
